@@ -125,7 +125,7 @@ pub(crate) mod verif_common {
             let e = tget(i);
             if entry_matches(&e, key, nonce, ad, ct) {
                 unsafe { NOPEN_OK += 1; LAST_OPEN_OK_LEN = e.ptlen; }
-                return Ok(if e.ptlen == 0 { Vec::new() } else { e.pt[..e.ptlen].to_vec() }); // (to_vec of an empty slice trips a Kani model quirk)
+                { let mut v = e.pt.to_vec(); v.truncate(e.ptlen); return Ok(v); } // never a capacity-0 Vec: an empty Vec returned from a stub trips a Kani model quirk (bogus dealloc)
             }
         });
         Err(ChaPolyDecryptError)
